@@ -119,6 +119,11 @@ fn candidates(p: &Plan) -> Vec<Plan> {
         q.sched_yield_pm = 0;
         out.push(q);
     }
+    if p.chan_cap.is_some() {
+        let mut q = p.clone();
+        q.chan_cap = None;
+        out.push(q);
+    }
     if !p.preexisting.is_empty() {
         let mut q = p.clone();
         q.preexisting.clear();
